@@ -147,3 +147,39 @@ Qed.
 
 Theorem load_tree_from_fs_is_load sort root l : load_tree_from_fs sort root l = load sort l.
 Proof. unfold load_tree_from_fs. apply visit_is_load. lia. Qed.
+
+(* ------------------------------------------------------------------ *)
+(* A case-folding path flavour (Windows): sibling directories are ordered by their
+   lower-cased names, files by their names as they are -- within one folder two
+   different orders are in use, and [ordered] fails. *)
+Open Scope Z_scope.
+
+Lemma path_ltb_win_siblings (pre : path) (a b : text) :
+  path_ltb_win (pre ++ [a]) (pre ++ [b]) = text_ltb (fold_text a) (fold_text b).
+Proof. unfold path_ltb_win. rewrite !map_app. cbn [map]. apply path_ltb_siblings. Qed.
+
+Definition win_witness : list fsn :=
+  [Dir [66] []; Dir [97] []; File [66; 46; 116] 0 (0, 1)%Z; File [97; 46; 116] 0 (0, 1)%Z].   (* B/  a/  B.t  a.t *)
+
+Lemma win_witness_names :
+  map ft_name (visit_win 2 [] win_witness) = [[66; 46; 116]; [97; 46; 116]; [97]; [66]] /\
+  map ft_name (load true win_witness) = [[66; 46; 116]; [97; 46; 116]; [66]; [97]].
+Proof. vm_compute. split; reflexivity. Qed.
+
+Lemma win_witness_not_ordered : ~ ordered (visit_win 2 [] win_witness).
+Proof.
+  intros (fs & ds & E & Hf & Hd & Sf & Sd).
+  assert (V : visit_win 2 [] win_witness =
+              [FN (entry_file [66; 46; 116] 0 (0, 1)%Z) []; FN (entry_file [97; 46; 116] 0 (0, 1)%Z) [];
+               FN (entry_dir [97]) []; FN (entry_dir [66]) []]) by (vm_compute; reflexivity).
+  rewrite V in E. clear V.
+  (* the two folders are the last two elements of [ds], in the order a, B *)
+  destruct fs as [|f1 [|f2 [|f3 fs']]]; cbn in E.
+  - subst ds. inversion Hd as [|x xs Hx _]; subst. discriminate Hx.
+  - inversion E; subst. inversion Hd as [|x xs Hx _]; subst. discriminate Hx.
+  - inversion E; subst.
+    inversion Sd as [|x xs _ Hh]; subst. inversion Hh as [|y ys Hr]; subst.
+    unfold name_le, text_le in Hr. vm_compute in Hr. discriminate Hr.
+  - inversion E; subst. inversion Hf as [|x1 r1 _ Hf1]; subst. inversion Hf1 as [|x2 r2 _ Hf2]; subst.
+    inversion Hf2 as [|x3 r3 Hf3 _]; subst. discriminate Hf3.
+Qed.
